@@ -470,7 +470,7 @@ fn main() {
     let mut sink = Sink::new("C01", &args.out);
     let mut rng = Rng::new(args.seed);
     let mut replay = Stream::new("replay", REQ, "chk_replay", ITY, OTY);
-    replay.shard = 60;
+    replay.shard = 30;
     let mut prog = Stream::new("prog", REQ, "chk_prog", P_ITY, P_OTY);
     prog.shard = 60;
 
